@@ -203,6 +203,25 @@ def source_digest(names):
     return out
 
 
+STANDIN_CLASSES = {"FakeThread", "NullLogger", "Flag", "FakeConn", "LinearSet", "LinearDict", "LinearCounter", "ScriptSock", "_Blob",
+                   "PayloadBuf", "ViewStandin", "PayloadSlice", "ModProxy", "CtypesShim", "SelShim", "TimeShim", "Capture", "FakeYAML",
+                   "JsonShim", "CtlEvent", "_NoSocket", "_SocketModuleForInit", "_LoggingShim", "NoSubprocess", "_Threading", "Thread",
+                   "Controller", "ShadowArray", "AssocArray", "_TextwrapShim", "World", "RecSock"}
+
+
+def _raised_in_harness(r):
+    """True when the innermost frame of an escaped exception lies in /verif (harness or engine code) and the exception is not
+    the oracle's own PropertyViolated"""
+    import re as _re
+    if "PropertyViolated" in (r.get("message") or ""):
+        return False
+    m = _re.search(r"(?:AttributeError|TypeError)[^\n]*'(\w+)' object", r.get("message") or "")
+    if m and m.group(1) in STANDIN_CLASSES:
+        return True     # the code under analysis asked a stand-in for something the stand-in does not model
+    files = _re.findall(r'File "([^"]+)", line', r.get("traceback") or "")
+    return bool(files) and os.path.abspath(files[-1]).startswith(ROOT + os.sep)
+
+
 def load_known(pid):
     path = os.path.join(ROOT, "known_findings.json")
     if not os.path.exists(path):
@@ -312,6 +331,11 @@ def run_property(pid, tier, obligations, validators=(), assumptions=(), explanat
             st["confirmed"] += 1
             if int(r.get("paths", 0) or 0) > 1 or ob.kind == "script":
                 nontrivial.add((ob.name, json.dumps(j["shard"], sort_keys=True)))
+        elif state == "EXEC_ERR" and _raised_in_harness(r):
+            # an exception that escaped from the harness's own code (not from the code under analysis, not an oracle verdict)
+            # says something about the harness, never about pyrtma
+            st["inconclusive"] += 1
+            harness_errors.append("%s shard %s: exception raised by harness code: %s %s" % (ob.name, j["shard"], (r.get("message") or "")[:200], r.get("traceback", "")[-500:]))
         elif state in ("POST_FAIL", "EXEC_ERR") and (r.get("call") or ob.kind == "script"):
             st["failed"] += 1
             cex.append((j, ob, r))
